@@ -3,7 +3,7 @@ INVARIANT Emit
 CHECK_DEADLOCK FALSE
 CONSTANTS
   MaxDepth = 1
-  Ops = {"ins", "rep", "del", "trunc", "case"}
+  Ops = {"ins", "rep", "del", "trunc", "case", "dup"}
   PosClasses = {"each"}
   CharClasses = {"LF", "CR", "TAB", "NUL", "VT", "FF", "FS", "US", "NEL", "LS", "PS", "ZWSP", "BOM", "NBSP", "SHY",
                  "L_DASH", "L_DOT", "L_SLASH", "L_COLON", "L_STAR", "L_COMMA", "L_APOS", "L_SPACE", "L_DIGIT",
